@@ -85,6 +85,35 @@ func oracle(sc *Scenario, tr *trace) (*Violation, bool, bool, []int) {
 			add(e, "the pipe of the server's configuration (EnsureAtStart) is not there after the first start")
 		}
 	}
+	if tr.stepErr != "" {
+		add("request-refused", "%s", tr.stepErr)
+	}
+	// a partition that is there can be read
+	for i, o := range tr.obs {
+		for p, pv := range o.Parts {
+			if pv.Err != "" {
+				add("partition-unreadable", "start %d: reading partition %d fails: %s", i, p, pv.Err)
+			}
+		}
+	}
+	for i, o := range tr.pre {
+		for p, pv := range o.Parts {
+			if pv.Err != "" {
+				add("partition-unreadable", "session %d, before its end: reading partition %d fails: %s", i, p, pv.Err)
+			}
+		}
+	}
+	// what an event carries is what was written, at every read of the scenario
+	for i, o := range tr.obs {
+		if len(o.Bad) > 0 {
+			add("event-content-differs", "start %d: %s", i, strings.Join(o.Bad, "; "))
+		}
+	}
+	for i, o := range tr.pre {
+		if len(o.Bad) > 0 {
+			add("event-content-differs", "session %d, before its end: %s", i, strings.Join(o.Bad, "; "))
+		}
+	}
 	// the removal of a partition: the directory has to go before the index record (a crash in between must not leave data
 	// without a record: the server would refuse to start)
 	for i, o := range tr.drops {
